@@ -248,7 +248,16 @@ func genFeatures(t *rapid.T, d string) gm.Table {
 			// TEXT columns are indexable without a prefix outside MySQL
 		}
 		if rapid.IntRange(0, 3).Draw(t, "expr") == 0 {
-			ix.Parts = append(ix.Parts, gm.Part{Expr: "(" + q("fa") + " + 1)", Desc: rapid.Bool().Draw(t, "exprdesc")})
+			ep := gm.Part{Expr: "(" + q("fa") + " + 1)", Desc: rapid.Bool().Draw(t, "exprdesc")}
+			if d == "postgres" {
+				// an expression part with an operator class and / or a NULLS ordering of its own
+				ep.OpClass = rapid.SampledFrom([]string{"", "int4_ops", "int8_ops"}).Draw(t, "exprops")
+				ep.NullsOther = rapid.Bool().Draw(t, "exprnulls")
+			}
+			ix.Parts = append(ix.Parts, ep)
+		}
+		if d == "postgres" && rapid.IntRange(0, 2).Draw(t, "colnulls") == 0 {
+			ix.Parts[0].NullsOther = true
 		}
 		switch d {
 		case "mysql":
